@@ -4,22 +4,24 @@ CFG = {
     "lean_exe": "lm_c12",
     "extract": ["Transfer"],
     "theorems": [
-        # round trip {:?} -> JS string literal
-        "Leptos.Transfer.C12_roundtrip_partial",
-        "Leptos.Transfer.C12_data_reads_replaced",
-        "Leptos.Transfer.C12_error_roundtrip_partial",
-        "Leptos.Transfer.C12_roundtrip_full_false",
+        # round trip js_string -> JS string literal: FULL (every string, every site, every Unicode table)
+        "Leptos.Transfer.C12_roundtrip",
+        "Leptos.Transfer.jsStrLit_jsString",
+        "Leptos.Transfer.jsString_eq",
+        "Leptos.Transfer.C12_regression_inputs_roundtrip",
+        "Leptos.Transfer.C12_nul_8_9_fine",
+        # script text is inert: FULL (every chunk, error messages included)
+        "Leptos.Transfer.C12_script_inert",
+        "Leptos.Transfer.C12_initial_chunk_inert",
+        "Leptos.Transfer.C12_incomplete_chunk_inert",
+        "Leptos.Transfer.C12_every_polled_chunk_inert",
+        # regression witnesses: what the code did before the repair (…Old printers)
         "Leptos.Transfer.C12_nul_digit_witness",
         "Leptos.Transfer.C12_lt_witness",
-        "Leptos.Transfer.C12_nul_8_9_fine",
-        "Leptos.Transfer.jsStrLit_rustDebugStr",
-        # script text is inert
-        "Leptos.Transfer.C12_script_inert_data",
-        "Leptos.Transfer.C12_script_inert_partial",
-        "Leptos.Transfer.C12_initial_chunk_inert_partial",
-        "Leptos.Transfer.C12_incomplete_chunk_inert",
-        "Leptos.Transfer.C12_script_inert_full_false",
         "Leptos.Transfer.C12_error_markup_witness",
+        "Leptos.Transfer.C12_old_roundtrip_full_false",
+        "Leptos.Transfer.C12_old_script_inert_full_false",
+        "Leptos.Transfer.C12_old_roundtrip_partial",
         # id counters
         "Leptos.Transfer.C12_ids_align",
         "Leptos.Transfer.C12_ids_no_collision",
@@ -37,10 +39,10 @@ CFG = {
         "Leptos.Transfer.C12_incomplete_chunk_transfer",
         "Leptos.Transfer.C12_read_back_single",
         "Leptos.Transfer.parseNat_decDigits",
-        # JSON codec: full round trip for string values
+        # JSON codec end to end
         "Leptos.Transfer.C12_json_string_roundtrip",
-        "Leptos.Transfer.C12_json_survives_replace",
-        # tie to the source (regenerated table)
+        "Leptos.Transfer.jsonStrDecode_encode",
+        # tie to the source (regenerated table: helper rewrites, the four sites, no stray {:?} / .replace)
         "Leptos.Transfer.C12_sites_match_source",
         "Leptos.Transfer.C12_dataStmt_is_format",
         "Leptos.Transfer.C12_errPushStmt_is_format",
@@ -55,12 +57,11 @@ CFG = {
             "unpadded base64 of random bytes, encoded by the real codee + leptos_server traits), errors before and during the stream, "
             "seal_errors, incomplete chunks, is_hydrating toggles and islands mode, every completion order when <= 4 values are "
             "registered (one case per permutation, 1 in 4 sessions) else a random order, bursts of completions between polls; "
-            "(b) single-literal sessions `lit d|e` and `jsonenc` (real JsonSerdeCodec::encode -> data site -> browser twin -> real decode; "
-            "never in a known class); (c) id programs over {next_id, set_is_hydrating(true/false)}: exhaustive up to "
+            "(b) single-literal sessions `lit d|e` and `jsonenc` (real JsonSerdeCodec::encode -> data site -> browser twin -> real decode); (c) id programs over {next_id, set_is_hydrating(true/false)}: exhaustive up to "
             "length 5 for both constructors plus random longer ones; (d) browser-twin-only ops (`js`, `tok`) comparing the two "
             "independent decoders/tokenizers. Strings: atoms < > / ! - \" ' \\ NUL digits U+2028 U+2029 U+FEFF </script <!-- <script "
-            "--> \\u003c ... mixed with arbitrary code points of the documented alphabet. 11 in 20 cases are sanitised to lie outside "
-            "every known-finding class. distinct = distinct op lines of the case; non-trivial = a case with a tag beyond the "
+            "--> \\u003c ... mixed with arbitrary code points of the documented alphabet (1 case in 5 is sanitised to avoid '<' and "
+            "NUL+octal, the inputs of the repaired defects F-C12-1/2/3; all other cases may contain them). distinct = distinct op lines of the case; non-trivial = a case with a tag beyond the "
             "bare op kinds (nul, lt, markup pattern, unicode, control, quote/backslash, toggles, seal, incomplete, ids, twin).",
     "trusted": [
         "the browser is modelled, not run: ECMA-262 string literals (sloppy mode, Annex B legacy octal) and the WHATWG script-data "
@@ -81,7 +82,7 @@ CFG = {
         "ECMAScript StringLiteral evaluation; array/assignment/push statements; WHATWG tokenizer script-data states",
     ],
     "assumptions": [
-        "classic (sloppy-mode) inline scripts, as build_response emits them; in strict mode `\\0` followed by a digit is a SyntaxError instead of an octal escape",
+        "classic (sloppy-mode) inline scripts, as build_response emits them (the repaired literal uses only \\uXXXX, \\u{…}, \\t \\r \\n \\\\ \\\" and is valid in strict mode too)",
         "ids below 2^53 on the JavaScript side (numbers are kept exact in the model)",
         "the client executes exactly the creations the server made while is_hydrating was on (islands: island bodies; island children are server-only) — C12_ids_align is stated for that discipline; C12_ids_same_program_full_false records that HydrateSharedContext::next_id ignores the flag",
         "write_async / register_error after the data stream has ended are outside the property (integrations call pending_data after the app stream is complete); the harness tags them `late` and the oracle skips them",
@@ -89,13 +90,14 @@ CFG = {
     ],
     "manifest": {
         "category": "proof",
-        "text": "Lean 4 theorems over all strings and all instantiations of rustc's Unicode tables: Rust {:?} followed by ECMAScript string-literal "
-                "decoding is the identity for every payload without NUL+octal digit and without '<' (partial; the full round trip is refuted by "
-                "kernel-checked witnesses = known findings F-C12-1 nul-octal, F-C12-3 lt-rewritten), lifted to whole chunks (a small JS evaluator assigns every value "
-                "under its id; first and last chunk included); JSON-encoded string values round-trip in full (no hypothesis); data chunks contain no '<' at all and are inert for the "
-                "WHATWG tokenizer, error messages are not (refuted: F-C12-2 error-markup; partial for '<'-free messages); server and client id counters align "
-                "for every creation program; every written value is emitted exactly once for every completion order; the model's statement printers are tied "
-                "to ssr.rs by a regenerated table; all tied to the code by a differential run of the real SsrSharedContext/HydrateSharedContext against the compiled model",
+        "text": "Lean 4 theorems over all strings and all instantiations of rustc's Unicode tables, about the repaired emission (fix: js_string in "
+                "hydration_context/src/ssr.rs): js_string followed by ECMAScript string-literal decoding is the identity for EVERY string at every site "
+                "(C12_roundtrip, full), lifted to whole chunks (a small JS evaluator assigns every value under its id; first and last chunk included) and through "
+                "the JSON codec; EVERY chunk, error messages included, contains no '<' and is inert for the WHATWG tokenizer (C12_script_inert, full); the three "
+                "defects of the old printers (F-C12-1 nul-octal, F-C12-2 error-markup, F-C12-3 lt-rewritten) stay as kernel-checked regression witnesses; server and "
+                "client id counters align for every creation program; every written value is emitted exactly once for every completion order; the model's printers "
+                "and the helper's rewrites are tied to ssr.rs by a regenerated table (no {:?} outside the helper); all tied to the code by a differential run of the "
+                "real SsrSharedContext/HydrateSharedContext against the compiled model",
         "design_ref": "DESIGN.md §7 C12",
         "note": "model hand-written, faithfulness checked by correspondence on generated inputs; browser behaviour modelled from the specs (cross-checked once against V8/Chrome)",
         "technique": "Lean 4 proof (induction over strings / op traces) + refutation witnesses + extracted source table + differential correspondence",
